@@ -7,6 +7,7 @@ mod e_cmp;
 mod e_bufmut;
 mod ledger;
 mod e_heap;
+mod e_recycle;
 #[global_allocator]
 static GLOBAL: ledger::Ledger = ledger::Ledger;
 
@@ -50,6 +51,8 @@ fn main() {
         "bufmut-replay" => e_bufmut::bufmut_replay(&mut out),
         "heap-random" => e_heap::heap_random(&mut out, seed, n, arg(&args, "--odd", 0u8) == 1, arg(&args, "--wild", 30), arg(&args, "--maxops", 30)),
         "heap-replay" => e_heap::heap_replay(&mut out),
+        "recycle-one" => e_recycle::recycle_one(&mut out, arg(&args, "--rounds", 1000), arg(&args, "--factor", 1)),
+        "recycle" => e_recycle::recycle(&mut out, seed, n, arg(&args, "--rounds", 1000), arg(&args, "--factor", 100)),
         "escapes" => e_fmt::escapes(&mut out),
         "fmt" => e_fmt::fmt_cases(&mut out, seed, n, !flag(&args, "--no-pairs")),
         #[cfg(feature = "serde")]
